@@ -200,4 +200,45 @@ theorem worklistRun_solution (F : List (Nat × V) → Nat → V) (deps inputs : 
         · simp only [hxb, if_false]
           exact hinv x (by simp [hxb, hx1])
 
+
+/-- a block whose equation returns its current value keeps the value it had when the loop started -/
+theorem worklistRun_keeps (F : List (Nat × V) → Nat → V) (deps : Nat → List Nat) (dflt : V) (x : Nat) (c : V)
+    (hx : ∀ cur, F cur x = getMap cur x dflt) :
+    ∀ (fuel : Nat) (cur : List (Nat × V)) (wl : List Nat), getMap cur x dflt = c →
+      ∀ r, worklistRun F deps dflt fuel cur wl = some r → getMap r x dflt = c := by
+  intro fuel
+  induction fuel with
+  | zero => intro cur wl _ r hr; simp [worklistRun] at hr
+  | succ n ih =>
+    intro cur wl hc r hr
+    cases wl with
+    | nil =>
+      simp only [worklistRun, Option.some.injEq] at hr
+      subst hr; exact hc
+    | cons b rest =>
+      simp only [worklistRun] at hr
+      split at hr
+      · exact ih cur rest hc r hr
+      · rename_i hne
+        refine ih _ _ ?_ r hr
+        rw [getMap_updMap]
+        by_cases hxb : x = b
+        · subst hxb; exact absurd (hx cur) hne
+        · simp [hxb, hc]
+
+omit [DecidableEq V] in
+theorem getMap_map_keys (keys : List Nat) (f : Nat → V) (k : Nat) (dflt : V) (hk : k ∈ keys) :
+    getMap (keys.map fun k => (k, f k)) k dflt = f k := by
+  induction keys with
+  | nil => cases hk
+  | cons a as ih =>
+    simp only [List.map_cons]
+    rw [getMap_cons]
+    by_cases h : a = k
+    · subst h; simp
+    · simp only [h, if_false]
+      rcases List.mem_cons.mp hk with rfl | h'
+      · exact absurd rfl h
+      · exact ih h'
+
 end Tealer.Worklist
